@@ -73,16 +73,20 @@ class Compute:
         swaps = 0
 
         # Recurse if necessary
+        # Note: the cost depends on the coordinates stored in the tree only,
+        # so walk over all stored fibers whatever values they hold
         if depth > 0:
             depth -= 1
-            for _, payload in fiber:
+            for payload in fiber.getPayloads():
                 swaps += Compute._numSwapsTree(payload, depth, radix, next_latency)
             return swaps
 
-        # Otherwise merge
+        # Otherwise merge the coordinate lists of the fibers below (a fiber
+        # without coordinates contributes no list)
         coords = []
-        for _, payload in fiber:
-            coords.append(sorted([-c for c in payload.getCoords()]))
+        for payload in fiber.getPayloads():
+            if len(payload.getCoords()) > 0:
+                coords.append(sorted([-c for c in payload.getCoords()]))
 
         while len(coords) > 1:
             new = []
